@@ -155,6 +155,19 @@ CHECKS = {
                 note='Exhaustive for the stated history space; one operation per time step, issued by one process each.',
                 technique='TLA+ sequential spec SimPySem enumerated and law-checked by TLC (SimPy); all histories replayed on the '
                           'real classes; snapshots validated by TLC against the TLA+ monitor ObsC19'),
+    'C18': dict(obs='ObsC18', ref='4/C18',
+                text='SimPyEv.tla defines the script language of the usim.py event layer (timeouts, shared events, succeed/fail incl. a '
+                     'second trigger, AllOf/AnyOf, nested conditions, waiting for processes, interrupts with causes, yielded native '
+                     'notifications, run(until = None / time / event)) and TLC enumerates all 173 346 scripts of 2 processes x 2 '
+                     'steps; seeded random scripts of 3 processes x 3 steps are added; every script runs on the real layer and TLC '
+                     'validates the trace against ObsC18: one trigger per event, resume time/value/exception of every wait, '
+                     'callbacks exactly once at the trigger time, condition fire time and members, interrupts one per yield in '
+                     'call order within the same time step, nothing after until, until value, unhandled failure, nobody left waiting.',
+                note='Ties inside one time step (an AnyOf member failing in the step in which another fires) are accepted either '
+                     'way; the clock reading after run(until=T) is not judged (DESIGN.md section 6). Embedding in a native '
+                     'simulation is covered only through yielded native notifications.',
+                technique='TLA+ script space SimPyEv enumerated by TLC; scripts replayed on the real usim.py layer; traces validated '
+                          'by TLC against the TLA+ monitor ObsC18'),
 }
 
 
